@@ -32,6 +32,7 @@ var scripted = []scenario{
 	{"key_rotation", scKeyRotation},
 	{"lifecycle_corners", scLifecycleCorners},
 	{"authority", scAuthority},
+	{"forged_slash", scForgedSlash},
 }
 
 func init() {
@@ -84,6 +85,13 @@ func init() {
 		cfg.ConsUnbonding = 3 * 3600
 		cfg.CCVTimeout = 3 * 3600
 		cfg.BlocksPerEpoch = int64(1 + (seed/int64(len(scripted)))%3)
+		if sc.name == "forged_slash" {
+			cfg.NumVals = 5
+			cfg.Tokens = []int64{3000000, 2000000, 2000000, 1000000, 1000000}
+			cfg.MaxProvVals = 5
+			cfg.ReplenishFrac = "1.0"
+			cfg.ReplenishPer = 60
+		}
 		if sc.name == "mixed_consumers" {
 			cfg.NumVals = 5
 			cfg.Tokens = []int64{5000000, 4000000, 3000000, 2000000, 1000000}
@@ -199,6 +207,25 @@ func scSharedConnection(t *testing.T, w *World, variant int) {
 func scLateChannel(t *testing.T, w *World, variant int) {
 	c0 := w.quickConsumer("late-1", 1, []string{"v1", "v2", "v3"}, nil)
 	w.StartConsumer(c0)
+	if variant%4 == 3 {
+		// a validator (and a key) enters and leaves while the packets are still queued; in odd variants/2 the owner stops
+		// the consumer before the channel exists: the queued packets must never leave
+		w.Block("p", 5, nil, map[string]any{"a": "OptIn", "v": "v4", "c": c0, "key": "k4"})
+		for i := 0; i < 3; i++ {
+			w.Block("p", 5, nil)
+		}
+		w.Block("p", 5, nil, map[string]any{"a": "OptOut", "v": "v4", "c": c0}, map[string]any{"a": "AssignKey", "v": "v2", "c": c0, "key": "k2"})
+		for i := 0; i < 3; i++ {
+			w.Block("p", 5, nil)
+		}
+		w.Block("p", 5, nil, map[string]any{"a": "AssignKey", "v": "v2", "c": c0, "key": "k5"})
+		for i := 0; i < 3; i++ {
+			w.Block("p", 5, nil)
+		}
+		if (variant/4)%2 == 1 {
+			w.Block("p", 5, nil, map[string]any{"a": "RemoveConsumer", "sender": "o1", "c": c0})
+		}
+	}
 	for i := 0; i < 3+variant%3; i++ {
 		w.Block("p", 5, nil, map[string]any{"a": "Delegate", "v": []string{"v1", "v2", "v3"}[i%3], "amt": 1000000})
 		w.Block("p", 5, nil, map[string]any{"a": "AssignKey", "v": []string{"v1", "v2", "v3"}[i%3], "c": c0, "key": fmt.Sprintf("k%d", 1+i%3)})
@@ -614,6 +641,9 @@ func scRewards(t *testing.T, w *World, variant int) {
 		w.Block("p", 5, nil, map[string]any{"a": "UpdateConsumer", "sender": "o1", "c": c1, "denoms": []string{d1}})
 	}
 	w.Block("p", 5, nil, map[string]any{"a": "SetCommission", "v": "v2", "c": c0, "rate": "0.500000000000000000"})
+	// a per-consumer rate of exactly zero is a rate, too (the validators' provider commission is 10 %)
+	w.Block("p", 5, nil, map[string]any{"a": "SetCommission", "v": "v1", "c": c0, "rate": "0.000000000000000000"},
+		map[string]any{"a": "SetCommission", "v": "v3", "c": c1, "rate": []string{"0.000000000000000000", "1.000000000000000000", "0.100000000000000000"}[variant%3]})
 	// both consumers need their first validator-set packet before they accept ordinary transactions
 	w.Block("p", 5, nil, map[string]any{"a": "Delegate", "v": "v2", "amt": 1000000})
 	for i := 0; i < 3; i++ {
@@ -694,6 +724,11 @@ func scMixedConsumers(t *testing.T, w *World, variant int) {
 		txs = append(txs, map[string]any{"a": "OptIn", "v": fmt.Sprintf("v%d", i), "c": "c2"})
 	}
 	w.Block("p", 5, nil, txs...)
+	// a consumer that allows inactive validators and has only the smallest validator opted in: when the provider's consensus
+	// set is smaller than the bonded set that validator is inactive and the launch has to fall back
+	w.Block("p", 5, nil, map[string]any{"a": "CreateConsumer", "sender": "o2", "chain": "mixd-1", "init": map[string]any{"initRev": 1, "spawn": w.now() + 40},
+		"shaping": map[string]any{"allowInactive": true}})
+	w.Block("p", 5, nil, map[string]any{"a": "OptIn", "v": fmt.Sprintf("v%d", n), "c": "c3"})
 	// on the Top-N consumer only the smallest validators opt in voluntarily
 	w.Block("p", 5, nil, map[string]any{"a": "OptIn", "v": fmt.Sprintf("v%d", n), "c": "c0"}, map[string]any{"a": "OptIn", "v": fmt.Sprintf("v%d", n-1), "c": "c0", "key": "k1"})
 	for i := 0; i < 8; i++ {
@@ -709,6 +744,27 @@ func scMixedConsumers(t *testing.T, w *World, variant int) {
 		w.Block("p", 5, nil)
 	}
 	w.Block("p", 5, nil, map[string]any{"a": "OptOut", "v": fmt.Sprintf("v%d", n), "c": "c0"}, map[string]any{"a": "OptOut", "v": "v1", "c": "c0"})
+	for i := 0; i < 3; i++ {
+		w.Block("p", 5, nil)
+	}
+	// lists replaced by lists of the same length with the same first entry, by shorter and by longer ones
+	w.Block("p", 5, nil, map[string]any{"a": "UpdateConsumer", "sender": "o1", "c": "c1", "shaping": map[string]any{"denyL": []string{"v1", "v2"}}})
+	for i := 0; i < 3; i++ {
+		w.Block("p", 5, nil)
+	}
+	w.Block("p", 5, nil, map[string]any{"a": "UpdateConsumer", "sender": "o1", "c": "c1", "shaping": map[string]any{"denyL": []string{"v1", "v3"}}})
+	for i := 0; i < 3; i++ {
+		w.Block("p", 5, nil)
+	}
+	w.Block("p", 5, nil, map[string]any{"a": "UpdateConsumer", "sender": "o1", "c": "c1", "shaping": map[string]any{"allowL": []string{"v2", "v3", "v4"}, "prioL": []string{"v4", "v2"}}})
+	for i := 0; i < 3; i++ {
+		w.Block("p", 5, nil)
+	}
+	w.Block("p", 5, nil, map[string]any{"a": "UpdateConsumer", "sender": "o1", "c": "c1", "shaping": map[string]any{"allowL": []string{"v2", "v3", "v5"}, "prioL": []string{"v4", "v3"}}})
+	for i := 0; i < 3; i++ {
+		w.Block("p", 5, nil)
+	}
+	w.Block("p", 5, nil, map[string]any{"a": "UpdateConsumer", "sender": "o1", "c": "c1", "shaping": map[string]any{"allowL": []string{"v2"}}})
 	for i := 0; i < 3; i++ {
 		w.Block("p", 5, nil)
 	}
@@ -739,6 +795,15 @@ func scKeyRotation(t *testing.T, w *World, variant int) {
 			continue
 		}
 		w.Block("p", 5, nil, map[string]any{"a": "CreateValidator", "v": fmt.Sprintf("v%d", nv+1+i), "key": key, "amt": 1500000})
+	}
+	// a validator that is jailed (provider-side downtime) replaces its key: the old key stays attributable all the same
+	if variant%2 == 1 {
+		w.Block("p", 5, nil, map[string]any{"a": "AssignKey", "v": "v3", "c": c0, "key": "k8"})
+		for i := 0; i < 5; i++ {
+			w.Block("p", 5, []string{"pk3"})
+		}
+		w.Block("p", 5, nil, map[string]any{"a": "AssignKey", "v": "v3", "c": c0, "key": "k7"})
+		w.Block("p", 5, nil, map[string]any{"a": "AssignKey", "v": "v2", "c": c0, "key": "k8"}) // somebody else wants the old key at once
 	}
 	// time passes over the pruning deadlines in steps around them
 	for i := 0; i < 24; i++ {
@@ -924,4 +989,81 @@ func scAuthority(t *testing.T, w *World, variant int) {
 	for i := 0; i < 3; i++ {
 		w.Block("p", 5, nil)
 	}
+}
+
+// forged slash packets, systematically: a compromised consumer sends every combination of infraction kind, validator-set
+// update id (0, issued, never issued), kind of validator key (member with provider key, member with assigned key, assigned
+// key of a validator that left the set, unknown key) and reported power; an honest validator with an assigned key is
+// reported after it opted out (a report that is merely late)
+func scForgedSlash(t *testing.T, w *World, variant int) {
+	c0 := w.quickConsumer("fs-1", 1, []string{"v1", "v2", "v3", "v4", "v5"}, nil)
+	w.Block("p", 5, nil, map[string]any{"a": "AssignKey", "v": "v2", "c": c0, "key": "k2"}, map[string]any{"a": "AssignKey", "v": "v4", "c": c0, "key": "k4"})
+	w.StartConsumer(c0)
+	if err := w.Connect(c0); err != nil {
+		return
+	}
+	w.OpenChannel(c0, w.defaultChanCfg(c0))
+	sync := func(n int) {
+		for i := 0; i < n; i++ {
+			w.Block("p", 5, nil, map[string]any{"a": "RelayTo", "c": c0, "n": 1}, map[string]any{"a": "AckTo", "c": c0, "n": 5})
+			w.Block(c0, 5, nil, map[string]any{"a": "RelayTo", "n": 5}, map[string]any{"a": "AckTo", "n": 5})
+		}
+	}
+	sync(4)
+	// v4 leaves the consumer (its key k4 stays assigned)
+	w.Block("p", 5, nil, map[string]any{"a": "OptOut", "v": "v4", "c": c0})
+	sync(3)
+	type combo struct {
+		inf, key string
+		id       int64 // -1, -2: relative to the current id; others literal
+	}
+	var valid, invalid []combo
+	for _, inf := range []string{"downtime", "doublesign"} {
+		for _, key := range []string{"pk1", "k2", "k4", "k8", "pk3", "pk5"} {
+			for _, id := range []int64{0, -1, -2} {
+				valid = append(valid, combo{inf, key, id})
+			}
+		}
+	}
+	for _, key := range []string{"pk1", "k2", "k4", "k8", "pk3", "pk5"} {
+		for _, id := range []int64{9999, 1000003} {
+			for _, inf := range []string{"doublesign", "downtime"} {
+				invalid = append(invalid, combo{inf, key, id})
+			}
+		}
+	}
+	send := func(cb combo, power int64) {
+		id := cb.id
+		if id < 0 {
+			id = int64(w.P.PApp.ProviderKeeper.GetValidatorSetUpdateId(w.P.GetContext())) + id
+			if id < 0 {
+				id = 0
+			}
+		}
+		if err := w.ForgeSlash(c0, cb.key, id, cb.inf, power); err != nil {
+			return
+		}
+		w.Block(c0, 5, nil)
+		w.Block("p", 5, nil, map[string]any{"a": "UpdateClient", "c": c0})
+		w.Block("p", 5, nil, map[string]any{"a": "RelayTo", "c": c0, "n": 1})
+		w.Block("p", 5, nil)
+		w.Block(c0, 5, nil, map[string]any{"a": "UpdateClient"})
+		w.Block(c0, 5, nil, map[string]any{"a": "RelayTo", "n": 5}, map[string]any{"a": "AckTo", "n": 5})
+		// jailed validators come back, so that later reports find them in the set again
+		w.Block("p", 700, nil, map[string]any{"a": "Unjail", "v": "v1"}, map[string]any{"a": "Unjail", "v": "v2"}, map[string]any{"a": "Unjail", "v": "v3"}, map[string]any{"a": "Unjail", "v": "v5"})
+		sync(2)
+	}
+	// a sample of the valid combinations, different per variant
+	for i, cb := range valid {
+		if (i+variant)%3 == 0 {
+			send(cb, int64(1+(i+variant)%3))
+		}
+	}
+	// a rejected packet makes the consumer close the channel: only the first invalid one gets through
+	send(invalid[variant%len(invalid)], 1)
+	// v4 opts in again: the consumer learns about both changes, possibly in one block
+	w.Block("p", 5, nil, map[string]any{"a": "OptIn", "v": "v4", "c": c0})
+	sync(3)
+	w.Block("p", 700, nil, map[string]any{"a": "Unjail", "v": "v1"}, map[string]any{"a": "Unjail", "v": "v2"})
+	sync(2)
 }
